@@ -19,13 +19,16 @@ from vlib.refdata import GREEK, GREEK_U
 
 PROPERTY = "C13"
 LEVEL = "exploration"
-RULE = ("G1 formula ASTs (118 symbols, integer/decimal counts, nested ()[]{} groups, hydrate parts, charges, radical/"
-        "greek prefixes, phase suffixes, primes, the electron) are rendered by chempy from their text; an own tokenizer "
+RULE = ("G1 formula ASTs (118 symbols, integer/decimal counts, nested ()[]{} groups, hydrate parts, charges, radical / "
+        "greek / greek-then-radical prefixes, phase suffixes, primes, the electron) are rendered by chempy from their text; an own tokenizer "
         "undoes exactly the presentation mapping of the format and must recover the canonical text of the AST.  "
         "Non-trivial formula = (a count >= 10 or a decimal count) and (charge magnitude >= 2 or a hydrate part); "
         "species: a suffix together with a custom `phases` argument; reactions (integer coefficients 1..1000 and "
         "fractional ones 0.001..999.999 with 1-3 decimals, built with checks=()): a coefficient != 1 and a key with a "
-        "charge or a count; a printed coefficient is read back as a number.  Distinct by case digest.  'prefixes' enumerates all 25 prefixes x 4 bodies.")
+        "charge or a count; a printed coefficient is read back as a number; ~40 % of the reactions carry inactive "
+        "reactants and/or products (1-2 keys), expected behind the active items of their side inside one pair of "
+        "parentheses, in stored order.  Distinct by case digest.  'prefixes' enumerates all 49 prefixes (24 greek "
+        "labels, the radical dot, 24 greek label + radical dot) x 4 bodies.")
 ASSUMPTIONS = ["vlib/gen_formula.py canonical text and Fraction composition of the AST (shared reference model of C01)",
                "own transcription of the presentation tables (greek names/letters, sub/superscript digits, arrows: "
                "\\rightarrow \\rightleftharpoons / U+2192 U+21CC / &rarr; &harr;)",
@@ -76,11 +79,22 @@ def invert(fmt, s):
     a presentation token nor verbatim formula text."""
     out = []
     i = 0
-    for rendered, written in _PREFIX[fmt]:
-        if s.startswith(rendered):
-            out.append(written)
-            i = len(rendered)
+    # leading prefix tokens: at most one greek label and one radical dot, each mapped back to its written form in
+    # the order shown (the order itself is judged by the comparison with the canonical text: 'alpha-.X' is written
+    # greek-then-dot).  In HTML the radical and the hydrate separator are both '&sdot;': a *leading* one (at the
+    # start or directly behind the greek token) is the radical.
+    kinds = set()
+    while len(kinds) < 2:
+        for rendered, written in _PREFIX[fmt]:
+            kind = "radical" if written == "." else "greek"
+            if kind not in kinds and s.startswith(rendered, i):
+                out.append(written)
+                kinds.add(kind)
+                i += len(rendered)
+                break
+        else:
             break
+    body_start = i
     n = len(s)
     hyd = _HYD[fmt]
     charge_seen = False
@@ -146,7 +160,7 @@ def invert(fmt, s):
             continue
         # -- hydrate separator, followed by the (plain) multiplier ----------------
         if s.startswith(hyd, i):
-            if i == 0:
+            if i == body_start:
                 raise NotInvertible(i, "separator without a first part")
             out.append("..")
             i += len(hyd)
@@ -204,7 +218,7 @@ def check_render(case, ctx):
     lbls, s = G.labels(case)
     ctx.label(*lbls)
     if s["prefix"] and s["prefix"] != ".":
-        ctx.label("greek=" + s["prefix"][:-1])
+        ctx.label("greek=" + s["prefix"].rstrip(".")[:-1])
     ctx.nontrivial(_formula_nontrivial(s))
     for fmt, fn in _renderers().items():
         got = sut(fn, txt)
@@ -232,7 +246,7 @@ _PREFIX_BODIES = [
 
 
 def enum_prefixes(tier):
-    for pre in [g + "-" for g in GREEK] + ["."]:
+    for pre in [g + "-" for g in GREEK] + ["."] + [g + "-." for g in GREEK]:
         for b in _PREFIX_BODIES:
             f = {"prefix": pre, "hyd": "..", "electron": False}
             f.update(b)
@@ -370,21 +384,6 @@ def substance_cases(draw):
 _NUMBER_RE = re.compile(r"^(?:[0-9]+\.?[0-9]*|\.[0-9]+)(?:[eE][+-]?[0-9]+)?$")
 
 
-def _parse_side(fmt, side):
-    """'2 X + 0.5 Y + Z' -> [(Fraction(2), 'X'), (Fraction(1, 2), 'Y'), (Fraction(1), 'Z')] with the names still
-    rendered; '' -> [].  The coefficient is read as a number (exact value of the decimal text), whatever its spelling."""
-    if side == "":
-        return []
-    items = []
-    for it in side.split(" + "):
-        head, sep, rest = it.partition(" ")
-        if sep and _NUMBER_RE.match(head):
-            items.append((Fraction(head), rest))
-        else:
-            items.append((Fraction(1), it))
-    return items
-
-
 def coef_value(c):
     """the coefficient of the description as a Python number: int, or the float of a decimal literal 'n.ddd'"""
     return float(c) if isinstance(c, str) else c
@@ -403,31 +402,69 @@ def _has_count(f):
     return any(t["count"] for p in f["parts"] for t, _ in G._walk(p["terms"]))
 
 
+SIDES = ("reac", "prod", "inact_reac", "inact_prod")
+
+
+def _split_side(printed, n_active, n_inactive):
+    """'A + 2 B + ( C + 3 D)' -> (['A', '2 B'], ['C', '3 D']) or (None, why).  The numbers of items come from the
+    description (a rendered name never contains ' + '), so a name that itself begins with '(' is not mistaken for
+    the group: the inactive items are the last n_inactive items, enclosed in one pair of parentheses (blanks inside
+    the parentheses are presentation)."""
+    toks = [] if printed == "" else printed.split(" + ")
+    if len(toks) != n_active + n_inactive:
+        return None, "number_of_terms"
+    act, ina = toks[:n_active], toks[n_active:]
+    if ina:
+        if not (ina[0].startswith("(") and ina[-1].endswith(")")) or (len(ina) == 1 and len(ina[0]) < 2):
+            return None, "inactive_group_not_parenthesised"
+        ina[0] = ina[0][1:]
+        ina[-1] = ina[-1][:-1]
+        ina[0] = ina[0].lstrip(" ")
+        ina[-1] = ina[-1].rstrip(" ")
+    return (act, ina), None
+
+
+def _parse_item(it):
+    """'2 X' -> (Fraction(2), 'X'), '0.5 Y' -> (Fraction(1, 2), 'Y'), 'Z' -> (Fraction(1), 'Z'); the name stays
+    rendered.  The coefficient is read as a number (exact value of the decimal text), whatever its spelling."""
+    head, sep, rest = it.partition(" ")
+    if sep and _NUMBER_RE.match(head):
+        return Fraction(head), rest
+    return Fraction(1), it
+
+
 def check_reaction(case, ctx):
-    """case: {"kind": "Reaction"|"Equilibrium", "ordered": bool, "reac": [[coef, AST], ...], "prod": [...]}
+    """case: {"kind": "Reaction"|"Equilibrium", "ordered": bool, "reac": [[coef, AST], ...], "prod": [...],
+    "inact_reac": [...], "inact_prod": [...] (optional)}
     coef: int, or a decimal literal "n.ddd" (str) for a fractional coefficient (stored as that float).
-    keys within one side are distinct by construction (see reaction_cases)."""
+    keys within one side are distinct by construction (see reaction_cases); the active sides are not empty."""
     import chempy
     from collections import OrderedDict
     Cls = getattr(chempy, case["kind"])
-    sides = []
+    given = {name: case.get(name, []) for name in SIDES}
+    everything = [it for name in SIDES for it in given[name]]
+    expected = {}
     substances = {}
     interesting = False
     big = False
-    for name in ("reac", "prod"):
-        lst = [(c, G.text(f), G.text(f, canonical=True)) for c, f in case[name]]
-        for c, f in case[name]:
+    for name in SIDES:
+        lst = [(c, G.text(f), G.text(f, canonical=True)) for c, f in given[name]]
+        for c, f in given[name]:
             if f["charge"] is not None or _has_count(f):
                 interesting = True
             if coef_value(c) != 1:
                 big = True
         if not case["ordered"]:
             lst.sort(key=lambda t: t[1])      # a plain dict is stored sorted by key
-        sides.append(lst)
+        expected[name] = lst
     ctx.label(case["kind"], "ordered" if case["ordered"] else "dict",
-              "nreac=%d" % len(sides[0]), "nprod=%d" % len(sides[1]))
+              "nreac=%d" % len(expected["reac"]), "nprod=%d" % len(expected["prod"]))
+    if given["inact_reac"]:
+        ctx.label("inactive_reactants=%d" % len(given["inact_reac"]))
+    if given["inact_prod"]:
+        ctx.label("inactive_products=%d" % len(given["inact_prod"]))
     ctx.nontrivial(interesting and big)
-    fractional = [Fraction(c) for c, _ in case["reac"] + case["prod"] if isinstance(c, str)]
+    fractional = [Fraction(c) for c, _ in everything if isinstance(c, str)]
     if fractional:
         ctx.label("fractional_coef")
         if any(v < 1 for v in fractional):
@@ -436,7 +473,7 @@ def check_reaction(case, ctx):
             ctx.label("fractional_coef_between_1_and_2")
         if any(v > 100 for v in fractional):
             ctx.label("fractional_coef>100")
-    for c, f in case["reac"] + case["prod"]:
+    for c, f in everything:
         k = G.text(f)
         if k not in substances:
             sub = sut(chempy.Substance.from_formula, k)
@@ -445,9 +482,9 @@ def check_reaction(case, ctx):
                 return
             substances[k] = sub
     mk = OrderedDict if case["ordered"] else dict
+    built = {name: mk((G.text(f), coef_value(c)) for c, f in given[name]) for name in SIDES}
     # checks=(): the default constructor checks refuse non-integral coefficients (and unbalanced generated keys)
-    rxn = Cls(mk((G.text(f), coef_value(c)) for c, f in case["reac"]),
-              mk((G.text(f), coef_value(c)) for c, f in case["prod"]), checks=())
+    rxn = Cls(built["reac"], built["prod"], None, built["inact_reac"] or None, built["inact_prod"] or None, checks=())
     for fmt in FORMATS:
         out = getattr(rxn, fmt)(substances)
         arrow = " " + ARROWS[case["kind"]][fmt] + " "
@@ -455,19 +492,26 @@ def check_reaction(case, ctx):
             ctx.fail("arrow:" + fmt, printed=repr(out)[:400], arrow=arrow)
             continue
         lhs, rhs = out.split(arrow)
-        for side_name, printed, expected in (("reac", lhs, sides[0]), ("prod", rhs, sides[1])):
-            items = _parse_side(fmt, printed)
-            if len(items) != len(expected):
-                ctx.fail("number_of_terms:" + fmt, printed=out, side=side_name, expected=[[c, k] for c, k, _ in expected])
+        ok = True
+        for side_name, printed in (("reac", lhs), ("prod", rhs)):
+            exp_act, exp_ina = expected[side_name], expected["inact_" + side_name]
+            split, why = _split_side(printed, len(exp_act), len(exp_ina))
+            if split is None:
+                ctx.fail(why + ":" + fmt, printed=out, side=side_name, expected=[[c, k] for c, k, _ in exp_act],
+                         expected_inactive=[[c, k] for c, k, _ in exp_ina])
                 break
-            ok = True
-            for (gc, gname), (ec, key, canon) in zip(items, expected):
-                if not same_coefficient(gc, ec):
-                    ctx.fail("coefficient:" + fmt, printed=out, side=side_name, key=key, got=str(gc), expected=ec)
-                    ok = False
-                    break
-                if not judge_name(ctx, fmt, gname, canon, "reaction", key):
-                    ok = False
+            for group, items, exp in (("", split[0], exp_act), ("inactive_", split[1], exp_ina)):
+                for it, (ec, key, canon) in zip(items, exp):
+                    gc, gname = _parse_item(it)
+                    if not same_coefficient(gc, ec):
+                        ctx.fail(group + "coefficient:" + fmt, printed=out, side=side_name, key=key, got=str(gc),
+                                 expected=ec)
+                        ok = False
+                        break
+                    if not judge_name(ctx, fmt, gname, canon, group + "reaction", key):
+                        ok = False
+                        break
+                if not ok:
                     break
             if not ok:
                 break
@@ -489,36 +533,48 @@ def _fractional_text(draw):
     return "%d.%0*d" % (ip, nd, draw(st.integers(1, 10 ** nd - 1)))
 
 
+def _coefficient(draw):
+    c = draw(st.integers(0, 11))
+    if c < 4:
+        return 1
+    if c < 9:
+        return draw(st.integers(2, 12))
+    if c == 9:
+        return draw(st.integers(13, 1000))
+    return _fractional_text(draw)
+
+
+def _side(draw, n):
+    side, seen = [], set()
+    for _ in range(n):
+        f = draw(G.formulas(max_depth=2, max_terms=4, max_hydrates=1))
+        t = G.text(f)
+        if t in seen:      # keys of one side are distinct: count the repeat on the existing (integer) entry instead
+            for it in side:
+                if G.text(it[1]) == t and isinstance(it[0], int):
+                    it[0] += 1
+            continue
+        seen.add(t)
+        side.append([_coefficient(draw), f])
+    return side
+
+
 @st.composite
 def reaction_cases(draw):
     kind = draw(st.sampled_from(["Reaction", "Equilibrium"]))
     ordered = draw(st.booleans())
     nr = draw(st.integers(1, 3))
     np_ = draw(st.integers(1, 5 - nr))
-    sides = []
-    for n in (nr, np_):
-        side, seen = [], set()
-        for _ in range(n):
-            f = draw(G.formulas(max_depth=2, max_terms=4, max_hydrates=1))
-            t = G.text(f)
-            if t in seen:      # keys of one side are distinct: count the repeat on the existing (integer) entry instead
-                for it in side:
-                    if G.text(it[1]) == t and isinstance(it[0], int):
-                        it[0] += 1
-                continue
-            seen.add(t)
-            c = draw(st.integers(0, 11))
-            if c < 4:
-                coef = 1
-            elif c < 9:
-                coef = draw(st.integers(2, 12))
-            elif c == 9:
-                coef = draw(st.integers(13, 1000))
-            else:
-                coef = _fractional_text(draw)
-            side.append([coef, f])
-        sides.append(side)
-    return {"kind": kind, "ordered": ordered, "reac": sides[0], "prod": sides[1]}
+    case = {"kind": kind, "ordered": ordered, "reac": _side(draw, nr), "prod": _side(draw, np_),
+            "inact_reac": [], "inact_prod": []}
+    # inactive species (shown in a parenthesised group behind the active ones): none (60 %), products only,
+    # reactants only, both; an inactive key may also occur among the active ones (they are separate mappings)
+    k = draw(st.integers(0, 9))
+    if k in (6, 8, 9):
+        case["inact_prod"] = _side(draw, draw(st.integers(1, 2)))
+    if k in (7, 9):
+        case["inact_reac"] = _side(draw, draw(st.integers(1, 2)))
+    return case
 
 
 SUBCHECKS = [
@@ -527,10 +583,12 @@ SUBCHECKS = [
     SubCheck("render_deep", check_render, strategy=G.formulas(max_depth=8, max_terms=10, max_hydrates=3),
              quick=400, thorough=60000, rule="G1 formulas, depth<=8, <=10 terms per level, <=3 hydrate parts, x 3 formats"),
     SubCheck("prefixes", check_render, enumerate=enum_prefixes,
-             rule="all 24 greek prefixes and the radical dot x 4 fixed bodies x 3 formats (exhaustive)"),
+             rule="all 24 greek prefixes, the radical dot and the 24 'greek-.' double prefixes x 4 fixed bodies x 3 formats "
+                  "(exhaustive)"),
     SubCheck("substance", check_substance, strategy=substance_cases(), quick=1500, thorough=100000,
              rule="Substance.from_formula / Species.from_formula (default, list and dict `phases`, default_phase_idx 0/n/None)"),
     SubCheck("reaction", check_reaction, strategy=reaction_cases(), quick=600, thorough=40000,
              rule="Reaction/Equilibrium over 2-5 G1 keys (dict = sorted, OrderedDict = given order), integer coefficients 1..1000 "
-                  "and fractional ones (1-3 decimals, below and above 1, checks=()), x 3 formats"),
+                  "and fractional ones (1-3 decimals, below and above 1, checks=()), optional inactive reactants/products "
+                  "(parenthesised group behind the active items), x 3 formats"),
 ]
